@@ -20,7 +20,7 @@ PROBES = ['retry-round', 'round>=3', 'per-recipient-result',
           'backend:cloud+mq', 'relay:pipe', 'relay:pipe1', 'relay:smtp', 'relay:lmtp', 'mapping-in-other-order']
 STATES_MEASURE = ('distinct (backend, per-message sequence of (result shape, '
                   'sorted per-recipient ground-truth outcomes)) vectors')
-BIAS = {'relays': ['script', 'script', 'script', 'pipe', 'pipe1', 'smtp',
+BIAS = {'p_split': 0.15, 'relays': ['script', 'script', 'script', 'pipe', 'pipe1', 'smtp',
                    'lmtp']}
 
 
